@@ -265,10 +265,27 @@ func buildSerState(rng *rand.Rand, kind string, allowEmpty bool, forceShape ...i
 		}
 		st.mutate = func(rng *rand.Rand, x any, n int) {
 			idx := x.(comet.VectorIndex)
-			if !idx.Trained() {
-				return
-			}
 			g := newVecGen(rng, s.dim)
+			if !idx.Trained() {
+				// an untrained state continues by being trained (the same set for source and reloaded index: both draw
+				// from equally seeded generators) and then used like any other
+				nTrain := 20
+				switch kind {
+				case "ivf":
+					nTrain += s.nlist
+				case "pq":
+					nTrain += 1 << s.nbits
+				case "ivfpq":
+					nTrain += max(s.nlist*10, 1<<s.nbits)
+				}
+				nodes := make([]comet.VectorNode, nTrain)
+				for i := range nodes {
+					nodes[i] = *comet.NewVectorNodeWithID(uint32(i+1), g.fresh())
+				}
+				if err := idx.Train(nodes); err != nil {
+					return
+				}
+			}
 			ig := newIDGen(rng)
 			ig.min = 1 << 28
 			for id := range ids.used { // never re-issue an id the state already holds (distinct ids are part of the quantifier)
